@@ -108,13 +108,14 @@ def _rule_c(repo: Repo, rep: Report) -> None:
     # stated on roles and value flow (vlib/h_c02): the key function is the one method of Memory that the public add / remove / triples call with
     # their context parameter alone - whatever it is called; what it can return is followed through its locals and through the functions it
     # delegates to (another method, a module-level function); every key that can come back is a string built - f-string, .format, %, +, join -
-    # from an expression E together with the class of E, and for at least one of them E is the identifier of the graph.
+    # from an expression E together with the class of E, and for at least one of them E is the identifier of the graph.  A function the key
+    # function delegates to may live in another module of the package that memory.py imports it from: it is read there.
     from vlib import h_c02 as H
 
     kf = H.context_key_function(mem, "Memory")
     where = "Memory." + kf.name
     rep.analysed("%s:%s" % (mem.rel, where))
-    leaves = H.returned_leaves(mem, kf, mem.methods("Memory"))
+    leaves = H.returned_leaves(mem, kf, mem.methods("Memory"), repo=repo)
     if not leaves:
         raise AnalysisError("%s: no returned key found" % where)
     of_identifier = 0
@@ -608,7 +609,11 @@ def _rule_p(repo: Repo, rep: Report) -> None:
     rep.rule("C02.p-every-listed-element-answers-the-selector",
              "in every generator method of ConjunctiveGraph/Dataset (and subclasses) each yielded element depends on each parameter of the method: it comes out of an enumeration "
              "that was handed the parameter, is computed from it, or is yielded under a test of it.  An element appended unconditionally (or under a test of what was listed "
-             "before) is reported for EVERY selector: ds.graphs((s, p, o)) lists the default graph although it does not hold (s, p, o)", floor=21)
+             "before) is reported for EVERY selector: ds.graphs((s, p, o)) lists the default graph although it does not hold (s, p, o)", floor=13)
+    # What the floor counts is one obligation per (listing method, selector parameter) - the restriction the property speaks of - not one per
+    # syntactic yield: two yields merged into one conditional expression, or a copied body replaced by a delegation to the method it was copied
+    # from, are the same 13 restrictions.  Every yield is still judged (and reported); the yields after the first of a pair do not add to the count.
+    counted: set[tuple[str, str]] = set()
     for m, cname in ds_classes:
         for mname, f in m.methods(cname).items():
             ys = [n for n in own_nodes(f) if isinstance(n, (ast.Yield, ast.YieldFrom))]
@@ -623,7 +628,8 @@ def _rule_p(repo: Repo, rep: Report) -> None:
                     why = H.yield_dependence(m, f, y, names)
                     rep.ob("C02.p-every-listed-element-answers-the-selector", m, q, "%s [selector %s]" % (norm(y)[:70], p_), bool(why),
                            why or "this element is produced whatever `%s` is: neither computed from it, nor drawn from an enumeration that received it, nor under a test of it - "
-                           "the listing restricted by %s contains an element that does not answer the restriction" % (p_, p_), node=y)
+                           "the listing restricted by %s contains an element that does not answer the restriction" % (p_, p_), node=y, vacuous=(q, p_) in counted)
+                    counted.add((q, p_))
 
 
 def _rule_q(repo: Repo, rep: Report) -> None:
